@@ -1,7 +1,7 @@
 from props import sched_common
 
 THEOREMS = ["Dispenso.Sched." + t for t in ['C04_no_pass_after_cancel', 'C04_cancelled_monotone', 'C04_cancelled_monotone_run', 'C04_begin_needs_guard', 'C04_body_after_passed_guard']]
-# (flavour, scenarios in the quick tier): 0 mixed, 1 without resize, 2 resize-heavy, 3 overloaded pool + chains
+# (flavour, scenarios in the quick tier): 0 mixed, 1 without resize, 2 resize-heavy (incl. resize(0) held in join while a ring-routed bulk arrives), 3 overloaded pool + chains, 4 workers parked between submissions, 5 exception-heavy
 FLAVOURS = [(1, 300), (0, 100)]
 
 
